@@ -88,6 +88,41 @@ Section Send.
     - injection Houts as <-. reflexivity.
   Qed.
 
+  (* the outputs as structured, well-formed records *)
+  Lemma build_outs sender recipient change ki frac fee total unspents u :
+    build sender recipient change ki frac fee total unspents = Ok u ->
+    exists outs, us_txouts u = map PT.txout_bytes outs /\ Forall MT.wf_txout outs /\ outs <> [].
+  Proof.
+    unfold build_unsigned. intros H.
+    apply bind_ok in H as (ta & Hta & H). apply bind_ok in H as (ts & Hts & H).
+    apply bind_ok in H as ([sel tot] & Hsel & H). cbn beta iota in H.
+    apply bind_ok in H as (rs & Hrs & H). apply bind_ok in H as (chs & Hchs & H).
+    apply bind_ok in H as (o1 & Ho1 & H). apply bind_ok in H as (outs & Houts & H).
+    injection H as <-. cbn [us_txouts].
+    change (MT.txout_ser (MT.mk_txout (ts - fee) rs) = Ok o1) in Ho1.
+    apply PT.txout_ser_inv in Ho1 as (Rv1 & Rl1 & ->).
+    destruct (tot - ts >=? dust_limit).
+    - apply bind_ok in Houts as (o2 & Ho2 & Houts). injection Houts as <-.
+      change (MT.txout_ser (MT.mk_txout (tot - ts) chs) = Ok o2) in Ho2.
+      apply PT.txout_ser_inv in Ho2 as (Rv2 & Rl2 & ->).
+      exists [MT.mk_txout (ts - fee) rs; MT.mk_txout (tot - ts) chs]. split; [reflexivity|]. split; [|discriminate].
+      constructor; [exact (conj Rv1 Rl1)|]. constructor; [exact (conj Rv2 Rl2)|constructor].
+    - injection Houts as <-. exists [MT.mk_txout (ts - fee) rs]. split; [reflexivity|]. split; [|discriminate].
+      constructor; [exact (conj Rv1 Rl1)|constructor].
+  Qed.
+
+  (* the selected pairs: each is a reported utxo with the serialisation of its structured input *)
+  Lemma build_selected sender recipient change ki frac fee total unspents u :
+    build sender recipient change ki frac fee total unspents = Ok u ->
+    Forall (fun xt => In (fst xt) unspents /\ reported_input ki xt) (us_selected u).
+  Proof.
+    intros H. apply build_inv in H as (ta & rs & chs & _ & _ & Hsel & _).
+    pose proof (select_mk_ok _ _ _ _ _ _ _ Hsel) as Hmk.
+    pose proof (select_subset _ _ _ _ _ _ _ Hsel) as Hsub.
+    rewrite Forall_forall in Hmk |- *. intros [x txi] Hin. split; [apply (Hsub _ Hin)|].
+    apply mk_txin_inv. apply (Hmk _ Hin).
+  Qed.
+
   (* ---------------- inputs_reported ---------------- *)
   Theorem inputs_reported sender recipient change ki frac fee total unspents u :
     sat_exact unspents ->
